@@ -70,6 +70,12 @@ class CallModels:
 
     # ================================================================= attributes
     def attr(self, eng, b, attr, st):
+        if isinstance(b, VInstanceState) and attr in ('append', 'extend', 'insert', 'remove', 'pop', 'popitem', 'clear', 'update', 'setdefault', 'add', 'discard', 'sort', 'reverse'):
+            # a mutating method of a list / dict / set kept on the instance: calling it changes the construct (C17)
+            def mutate(m, e, a, kw, s, n, _b=b, _attr=attr):
+                e.frame_violations.append(('call of %s on instance state %s.%s' % (_attr, _b.cls, _b.attr), s.clone()))
+                return [(s, NONE)]
+            return [(st, VFunc('%s.%s.%s' % (b.cls, b.attr, attr), model=('model', mutate)))]
         if isinstance(b, VExc):
             if attr == 'path':
                 return [(st, b.path)]
@@ -166,6 +172,9 @@ class CallModels:
         raise OutOfReach('setattr on %r' % (b,))
 
     def setitem(self, eng, b, key, v, st):
+        if isinstance(b, VInstanceState):
+            eng.frame_violations.append(('item store into instance state %s.%s' % (b.cls, b.attr), st.clone()))
+            return [(st, NONE)]
         if type(b).__name__ in ('VMap', 'VSubList'):
             # item store into a mapping / member list that belongs to the construct (C17)
             eng.frame_violations.append(('item store into a %s attribute of the construct' % ('mapping' if type(b).__name__ == 'VMap' else 'member list'), st.clone()))
